@@ -27,7 +27,8 @@ META = {
         "applied only under clean_qq and before the half-plus-quarter and "
         "intervener passes; the substitution loops re-derive their subject. "
         "Not decided: identity of lots/aliquots under every configuration."
-        ' Also: Tract.parse feeds TractParser the un-preprocessed text (re-parse with clean_qq off is not contaminated), clean_qq lock-down, chain family inclusion.'),
+        ' Also: Tract.parse feeds TractParser the un-preprocessed text (re-parse with clean_qq off is not contaminated), clean_qq lock-down, chain family inclusion.'
+        " Round 7: the match the engine reports stops in front of '.', ';', ','; every spelling the direction / quarter sub-patterns accept is accepted by the look-ahead as the start of the next aliquot."),
     'families': ['RX-LANG', 'TBL', 'FIXPOINT', 'ORDER', 'STRIPSET'],
 }
 
